@@ -17,7 +17,7 @@ SPEC = dict(
                 "that was put and verified against its roots. Partial: NMT proof production is not modelled (proofs are verified by the "
                 "implementation oracle only); the bare accessors (no wrappers) are in the executable model and under correspondence but "
                 "their own Sample/RowNamespaceData producers have no theorem."),
-    rule=("blocks: the empty block, widths 1,2,4 with every amount of trailing padding, widths 8,16 (quick) / 8..64 (thorough) with sampled "
+    rule=("blocks: the empty block, widths 1,2,4 with every amount of trailing padding, widths 8,16 (quick) / 8,16 with eight paddings and 32 with three (thorough; the Coq evaluation is quadratic in the width, 64-wide squares only as designed wide squares) with sampled "
           "padding, 1-5 namespaces in runs; plus, in every tier, two 32-wide squares (thorough: also two 64-wide) with a designed layout: "
           "'long' = a namespace spanning 19..k-3 rows, '16+17' = one namespace spanning exactly 16 rows followed by one spanning exactly "
           "17 rows (eds.NamespaceData fans out over the rows of a namespace; histograms ns_rows_in_block / nd_rows show the 16 / 17 / >17 "
